@@ -1660,3 +1660,134 @@ def _route_rule(ctx):
 rule("C09", "D9.11", "T-WITNESS", floor=30)(_segment_rule)
 rule("C15", "D15.10", "T-WITNESS", floor=30)(_segment_rule)
 rule("C15", "D15.11", "T-WITNESS", floor=12)(_route_rule)
+
+
+# ---------------------------------------------------------------------------------------------------------------- CIPDriver lifecycle
+def _cd(ctx):
+    return ctx.model.cls("pycomm3.cip_driver:CIPDriver")
+
+
+def _close_rule(ctx):
+    """CIPDriver.close folded on every combination of (connected?, session?, socket?) x (which closing step fails): the Forward
+    Close is sent only when connected, the session is un-registered only when one exists, the socket is closed when there is one,
+    in that order; whatever fails, the four state fields end at their constructor values (no socket, not connected, session 0,
+    not opened); failures are reported afterwards as one CommError and nothing else escapes."""
+    import itertools
+
+    cd = _cd(ctx)
+    fn = cd.methods["close"]
+    n = 0
+    for connected, session, has_sock in itertools.product((False, True), (0, 0x1234), (False, True)):
+        for fail in (None, "_forward_close", "_un_register_session", "sock", "all"):
+            if fail == "_forward_close" and not connected or fail == "_un_register_session" and not session or fail == "sock" and not has_sock:
+                continue
+            calls = []
+            sock = Obj(kind="socket") if has_sock else None
+            me = Obj(_ci=cd, _target_is_connected=connected, _session=session, _sock=sock, _connection_opened=connected)
+
+            def hook(call, env, it, calls=calls, fail=fail):
+                path = attr_path(call.func) or ""
+                if path in ("self._forward_close", "self._un_register_session"):
+                    calls.append(path[5:])
+                    if fail in (path[5:], "all"):
+                        raise _Raise("CommError" if path.endswith("close") else "OSError")
+                    return True
+                if path == "self._sock.close":
+                    calls.append("sock")
+                    if fail in ("sock", "all"):
+                        raise _Raise("OSError")
+                    return None
+                return UNKNOWN
+
+            kind, res = run_function(ctx, cd.module, fn, {"self": me}, call_hook=hook, deep=False)
+            n += 1
+            key = ckey(cd.key + ".close", f"witness:connected={connected},session={session:#x},socket={has_sock},fails={fail}")
+            if kind == "unknown":
+                ctx.undecided(key, fn, f"close not foldable: {res}")
+                continue
+            want_calls = (["_forward_close"] if connected else []) + (["_un_register_session"] if session and not (connected and fail in ("_forward_close", "all")) else []) + (["sock"] if has_sock else [])
+            state = (me._sock, me._target_is_connected, me._session, me._connection_opened)
+            failed = fail is not None and (fail != "all" or connected or session or has_sock)
+            diffs = []
+            if state != (None, False, 0, False):
+                diffs.append(f"state afterwards (socket, connected, session, opened) = {state!r}")
+            if calls != want_calls:
+                diffs.append(f"closing steps {calls!r} (expected {want_calls!r})")
+            if failed and (kind, res) != ("raise", "CommError"):
+                diffs.append(f"ends with {kind} {res!r} although a step failed (expected CommError)")
+            if not failed and kind != "return":
+                diffs.append(f"ends with {kind} {res!r} although nothing failed")
+            ctx.check(not diffs, key, fn, f"steps {want_calls}, state reset, {'CommError' if failed else 'normal return'}", f"close() with connected={connected}, session={session:#x}, socket={has_sock}, failing step {fail}: {diffs[:2]}")
+    init = cd.methods["__init__"]
+    k_, o_ = None, None
+    vals = {}
+    for st in ast.walk(init):
+        tgt = st.targets[0] if isinstance(st, ast.Assign) and len(st.targets) == 1 else st.target if isinstance(st, ast.AnnAssign) and st.value is not None else None
+        if tgt is not None and (attr_path(tgt) or "") in ("self._sock", "self._target_is_connected", "self._session", "self._connection_opened"):
+            vals[attr_path(tgt)[5:]] = ctx.folder.eval(st.value, cd.module)
+    want = {"_sock": None, "_target_is_connected": False, "_session": 0, "_connection_opened": False}
+    ctx.check(vals == want, ckey(cd.key + ".__init__", "initial-state"), init, "the constructor starts with no socket, not connected, session 0, not opened", f"constructor state {vals!r}; close() resets to {want!r}")
+
+
+def _forward_open_rule(ctx):
+    """CIPDriver._forward_open folded on witnesses (generic_message, the path encoder and the constants are markers / folded): no
+    request when already connected; CommError without a session; the Large Forward Open service goes with 32-bit network
+    parameters (size in the low 16 bits), the standard service with 16-bit parameters (size in the low 9 bits), both O->T and
+    T->O carry the same parameters; the request is unconnected, to the Connection Manager open-request instance, routed over
+    the configured path + message router; a granted reply stores the target's connection id and marks the driver connected, a
+    refused one leaves it disconnected and returns False."""
+    import struct as _st
+
+    cd = _cd(ctx)
+    fn = cd.methods["_forward_open"]
+    ev = lambda s_: ctx.folder.eval(ast.parse(s_, mode="eval").body, cd.module)  # noqa: E731
+    fo, lfo = ev("ConnectionManagerServices.forward_open"), ev("ConnectionManagerServices.large_forward_open")
+    prio, ticks, mult, tclass = (ctx.folder.module_value(cd.module.name, n_) for n_ in ("PRIORITY", "TIMEOUT_TICKS", "TIMEOUT_MULTIPLIER", "TRANSPORT_CLASS"))
+    if not all(isinstance(x, bytes) for x in (fo, lfo, prio, ticks, mult, tclass)):
+        ctx.undecided(ckey(cd.key + "._forward_open", "witness"), fn, "Forward Open constants are not foldable")
+        return
+    cfg0 = {"cid": b"CID!", "csn": b"SN", "vid": b"VI", "vsn": b"VSN!", "cip_path": ["<route>"]}
+
+    def path_hook(call, env, it):
+        if (attr_path(call.func) or "") == "PADDED_EPATH.encode":
+            kw = {k.arg: it.ev(k.value, env) for k in call.keywords}
+            return b"<" + repr((it.ev(call.args[0], env), kw.get("length"), kw.get("pad_length", False))).encode() + b">"
+        return UNKNOWN
+
+    mrp = ctx.folder.module_value(cd.module.name, "MSG_ROUTER_PATH")
+    for label, ext, size, granted in (("large, granted", True, 4000, True), ("standard, granted", False, 500, True), ("large, refused", True, 4000, False), ("standard, size 511", False, 511, True), ("large, size 65535", True, 65535, True)):
+        seen = {}
+        me = Obj(_ci=cd, _target_is_connected=False, _session=0x1234, _cfg=dict(cfg0, **{"extended forward open": ext, "connection_size": size}), connection_size=size, _target_cid=None)
+        gm = self_call("generic_message", lambda a, k, seen=seen, granted=granted: seen.update(k) or _resp(granted, value=b"TCID" + b"rest" if granted else None, error=None if granted else "Connection failure"))
+        kind, res = run_function(ctx, cd.module, fn, {"self": me}, call_hook=chain(path_hook, gm), deep=False)
+        key = ckey(cd.key + "._forward_open", f"witness:{label}")
+        if kind == "unknown":
+            ctx.undecided(key, fn, f"_forward_open not foldable ({label}): {res}")
+            continue
+        net = _st.pack("<I", (size & 0xFFFF) | (0x4200 << 16)) if ext else _st.pack("<H", (size & 0x01FF) | 0x4200)
+        want_data = prio + ticks + bytes(4) + b"CID!" + b"SN" + b"VI" + b"VSN!" + mult + bytes(3) + b"\x01\x40\x20\x00" + net + b"\x01\x40\x20\x00" + net + tclass
+        diffs = []
+        if seen.get("service") != (lfo if ext else fo):
+            diffs.append(f"service {seen.get('service')!r} (expected {'Large ' if ext else ''}Forward Open {(lfo if ext else fo)!r})")
+        if seen.get("request_data") != want_data:
+            diffs.append(f"request data {seen.get('request_data')!r} (expected {want_data!r})")
+        if seen.get("connected") is not False or seen.get("class_code") != ev("ClassCode.connection_manager") or seen.get("instance") != ev("ConnectionManagerInstances.open_request"):
+            diffs.append(f"addressing {dict((k, v) for k, v in seen.items() if k in ('connected', 'class_code', 'instance'))!r}")
+        want_route = b"<" + repr((["<route>"] + list(mrp) if isinstance(mrp, (list, tuple)) else None, True, False)).encode() + b">"
+        if isinstance(mrp, (list, tuple)) and seen.get("route_path") != want_route:
+            diffs.append(f"route {seen.get('route_path')!r} (expected the configured path followed by the message router, with a word count)")
+        if (kind, res) != ("return", granted) or me._target_is_connected is not granted or (granted and me._target_cid != b"TCID") or (not granted and me._target_cid is not None):
+            diffs.append(f"outcome {kind} {res!r}, connected={me._target_is_connected}, target cid={me._target_cid!r}")
+        ctx.check(not diffs, key, fn, f"{label}: service, parameters and outcome as specified", f"_forward_open ({label}): {diffs[:2]}")
+    for label, me, want in (("already connected", Obj(_ci=cd, _target_is_connected=True, _session=5, _cfg=dict(cfg0)), ("return", True)), ("no session", Obj(_ci=cd, _target_is_connected=False, _session=0, _cfg=dict(cfg0)), ("raise", "CommError"))):
+        sent = []
+        kind, res = run_function(ctx, cd.module, fn, {"self": me}, call_hook=chain(path_hook, self_call("generic_message", lambda a, k, sent=sent: sent.append(k) or _resp(True, value=b"xxxx"))), deep=False)
+        key = ckey(cd.key + "._forward_open", f"witness:{label}")
+        if kind == "unknown" and label == "no session" and not sent:
+            ctx.undecided(key, fn, f"_forward_open not foldable ({label}): {res}")
+        else:
+            ctx.check((kind, res) == want and not sent, key, fn, f"{label}: {want[0]} {want[1]!r}, nothing sent", f"_forward_open ({label}): {kind} {res!r}, {len(sent)} request(s) sent")
+
+
+rule("C10", "D10.11", "T-WITNESS", floor=20)(_close_rule)
+rule("C10", "D10.12", "T-WITNESS", floor=6)(_forward_open_rule)
